@@ -83,7 +83,7 @@ pub fn history<const CAP: u32, const PRE: usize, const REP: usize, const YLD: us
     let v: boxcar::Vec<Item> = boxcar::Vec::with_capacity(CAP, 1);
     let mut payload = [0u32; MAXID];
     let mut k = 0;
-    while k < PRE + YLD + POST {
+    while k < PRE + YLD + POST && k < MAXID {
         payload[k] = sym::u32_();
         k += 1;
     }
@@ -101,6 +101,8 @@ pub fn history<const CAP: u32, const PRE: usize, const REP: usize, const YLD: us
         next_id += 1;
         k += 1;
     }
+    #[allow(unused_mut)]
+    let mut over = false;
     if REP > 0 || YLD > 0 {
         let mut pl = [0u32; MAXID];
         let mut j = 0;
@@ -126,12 +128,22 @@ pub fn history<const CAP: u32, const PRE: usize, const REP: usize, const YLD: us
             }));
             check!(r.is_err() == (YLD > REP), "C08 an iterator that yields more items than it reported is stopped by the documented assertion (and only then)");
             if YLD > REP {
-                // the surplus item must not have been written anywhere
+                // the surplus item must not have been written anywhere; it was dropped by the unwinding
                 check!(v.get((PRE + REP) as u32).is_none(), "C08 a lookup returns nothing for an index no completed push was assigned");
-                std::mem::forget(v);
-                return;
+                over = true;
             }
         }
+        if over {
+            // REP items were written, the first surplus item was created and rejected
+            let mut j = 0;
+            while j < REP {
+                published[PRE + j] = Some(next_id + j as u8);
+                j += 1;
+            }
+            next_id += REP as u8 + 1;
+        }
+    }
+    if !over && (REP > 0 || YLD > 0) {
         let mut j = 0;
         while j < YLD {
             published[PRE + j] = Some(next_id + j as u8);
@@ -172,6 +184,20 @@ pub fn history<const CAP: u32, const PRE: usize, const REP: usize, const YLD: us
         check!(drops(probe) == 1, "C11 every injected item is dropped exactly once when the vector goes away");
     } else {
         check!(drops(probe) == 0, "C11 nothing that was not injected is dropped");
+    }
+    // natively (replay of an instance that is expected to end in the documented assertion) every
+    // item is looked at, not only the probed one
+    #[cfg(not(kani))]
+    {
+        let mut p = 0;
+        while p < MAXID {
+            if p < total {
+                check!(drops(p) == 1, "C11 every injected item is dropped exactly once when the vector goes away");
+            } else {
+                check!(drops(p) == 0, "C11 nothing that was not injected is dropped");
+            }
+            p += 1;
+        }
     }
     cover!(total > 0, "at least one item was injected");
 }
